@@ -146,6 +146,18 @@ Proof.
   - now apply (IH Hnd' x).
 Qed.
 
+Lemma NoDup_app_l {A} (a b : list A) : NoDup (a ++ b) -> NoDup a.
+Proof.
+  induction a as [|z a IH]; intros Hnd; [constructor|].
+  inversion Hnd as [|? ? Hz Hnd']; subst. constructor; [|now apply IH].
+  intros Hin. apply Hz. apply in_app_iff. now left.
+Qed.
+Lemma NoDup_app_r {A} (a b : list A) : NoDup (a ++ b) -> NoDup b.
+Proof.
+  induction a as [|z a IH]; intros Hnd; [exact Hnd|].
+  inversion Hnd; subst. now apply IH.
+Qed.
+
 (** * Running monadic code *)
 Lemma load_ok h i n : hget h i = Some n -> load i h = (Ok n, h).
 Proof. intros H. unfold load. now rewrite H. Qed.
@@ -305,7 +317,7 @@ Proof.
       rewrite !last_id_snoc. reflexivity.
     + (* node in the middle *)
       rewrite oid_eqb_neq.
-      2:{ intros E. symmetry in E. apply last_id_in in E. destruct E as [E|E].
+      2:{ intros E. symmetry in E. cbn [last_id] in E. apply last_id_in in E. destruct E as [E|E].
           - inversion E; subst. apply Hn2. now left.
           - apply Hn2. now right. }
       cbn [ret]. rewrite !last_id_app. reflexivity.
@@ -336,4 +348,417 @@ Proof.
   - now rewrite app_length.
   - intros j Hj. rewrite N. apply Hb. rewrite in_ids_app, ids_cons.
     apply in_ids_app in Hj. cbn [In]. tauto.
+Qed.
+
+(** * Heap frames with allocation: cells allocated so far and outside [own] are
+    untouched; the allocation pointer only grows. *)
+Definition hframe (h : heap) (own : list id) (h' : heap) : Prop :=
+  (nxt h <= nxt h')%positive /\
+  forall j, (j < nxt h)%positive -> ~ In j own -> hget h' j = hget h j.
+
+Lemma hframe_refl h own : hframe h own h.
+Proof. split; [lia|reflexivity]. Qed.
+
+Lemma hframe_trans h A h1 B h2 :
+  hframe h A h1 -> hframe h1 B h2 ->
+  (forall j, (j < nxt h)%positive -> In j B -> In j A) -> hframe h A h2.
+Proof.
+  intros [N1 F1] [N2 F2] Hsub. split; [lia|].
+  intros j Hj Hn. rewrite F2; [now apply F1|lia|]. intros Hb. apply Hn. now apply Hsub.
+Qed.
+
+Lemma hframe_weaken h A B h' : hframe h A h' -> incl A B -> hframe h B h'.
+Proof. intros [N F] Hi. split; [exact N|]. intros j Hj Hn. apply F; [exact Hj|]. intros Ha. apply Hn, Hi, Ha. Qed.
+
+Lemma frame_ok_hframe h own h' : frame_ok h own h' -> nxt h' = nxt h -> hframe h own h'.
+Proof. intros F N. split; [lia|]. intros j _ Hn. now apply F. Qed.
+
+Lemma hframe_halloc v h own : hframe h own (halloc v h).
+Proof.
+  split; [rewrite nxt_halloc; lia|]. intros j Hj _. apply hget_halloc_neq. lia.
+Qed.
+
+Lemma seg_hframe h own h' p l q :
+  hframe h own h' -> (forall i, In i (ids l) -> (i < nxt h)%positive /\ ~ In i own) ->
+  seg h p l q -> seg h' p l q.
+Proof.
+  intros [_ F] Hl. apply seg_frame. intros i Hi. destruct (Hl i Hi). now apply F.
+Qed.
+
+Lemma frame_ok_trans h A h1 B h2 C :
+  frame_ok h A h1 -> frame_ok h1 B h2 -> incl A C -> incl B C -> frame_ok h C h2.
+Proof.
+  intros F1 F2 HA HB j Hj. rewrite F2; [apply F1|]; intros Hin; apply Hj; auto.
+Qed.
+
+(** * _insert_link *)
+Lemma insert_link_spec h l1 x y l2 new v :
+  seg h None l1 x -> seg h y l2 None ->
+  hget h new = Some (mkNode None None v) ->
+  NoDup (ids (l1 ++ (new, v) :: l2)) ->
+  exists h',
+    insert_link (last_id l1 None) new (first_id l2 None) h = (Ok tt, h')
+    /\ seg h' None (l1 ++ (new, v) :: l2) None
+    /\ nxt h' = nxt h
+    /\ frame_ok h (ids (l1 ++ (new, v) :: l2)) h'.
+Proof.
+  intros S1 S2 Hnew Hnd.
+  destruct (nodup_mid _ _ _ _ Hnd) as [Hn1 [Hn2 Hnd12]].
+  assert (Hnd1 : NoDup (ids (l1 ++ [(new, v)]))).
+  { rewrite ids_app in *. cbn [ids map fst] in *. 
+    replace (ids l1 ++ new :: map fst l2) with ((ids l1 ++ [new]) ++ map fst l2) in Hnd
+      by (rewrite <- app_assoc; reflexivity).
+    now apply NoDup_app_l in Hnd. }
+  destruct (link_nodes_spec h l1 x None [(new, v)] S1) as [h1 [E1 [Sg1 [N1 F1]]]].
+  { cbn. split; [|exact I]. exact Hnew. }
+  { exact Hnd1. }
+  assert (S2' : seg h1 y l2 None).
+  { eapply seg_frame; [|exact S2]. intros i Hi. apply F1. rewrite in_ids_app. cbn.
+    intros [Hin|[->|[]]]; [|contradiction].
+    rewrite ids_app in Hnd12. eapply NoDup_app_disj; eauto. }
+  destruct (link_nodes_spec h1 (l1 ++ [(new, v)]) None y l2 Sg1 S2') as [h2 [E2 [Sg2 [N2 F2]]]].
+  { rewrite <- app_assoc. exact Hnd. }
+  rewrite last_id_snoc in E2. cbn [first_id] in E1.
+  unfold insert_link. rewrite (mbind_ok _ _ _ _ _ E1). rewrite E2.
+  exists h2. split; [reflexivity|]. rewrite <- app_assoc in Sg2, F2. cbn [app] in Sg2, F2.
+  split; [exact Sg2|]. split; [congruence|].
+  eapply frame_ok_trans; [exact F1|exact F2| |apply incl_refl].
+  intros j Hj. rewrite in_ids_app in *. cbn in *. tauto.
+Qed.
+
+Lemma node_insert_before_spec h l1 e ke l2 new v :
+  seg h None (l1 ++ (e, ke) :: l2) None ->
+  hget h new = Some (mkNode None None v) ->
+  NoDup (ids (l1 ++ (new, v) :: (e, ke) :: l2)) ->
+  exists h',
+    node_insert_before e new h = (Ok tt, h')
+    /\ seg h' None (l1 ++ (new, v) :: (e, ke) :: l2) None
+    /\ nxt h' = nxt h
+    /\ frame_ok h (ids (l1 ++ (new, v) :: (e, ke) :: l2)) h'.
+Proof.
+  intros Hs Hnew Hnd.
+  pose proof (seg_mid _ _ _ _ _ _ _ Hs) as He.
+  destruct (nodup_mid _ _ _ _ Hnd) as [Hn1 [Hn2 _]].
+  apply seg_app in Hs. destruct Hs as [S1 S2]. cbn [first_id] in S1.
+  destruct (insert_link_spec h l1 _ _ ((e, ke) :: l2) new v S1 S2 Hnew Hnd)
+    as [h' [E [Sg [N F]]]].
+  unfold node_insert_before. rewrite (mbind_ok _ _ _ _ _ (load_ok _ _ _ He)). cbn [n_prev].
+  replace (Pos.eqb e new) with false.
+  2:{ symmetry. apply Pos.eqb_neq. intros ->. apply Hn2. now left. }
+  rewrite oid_eqb_neq.
+  2:{ intros Eq. symmetry in Eq. apply last_id_in in Eq. destruct Eq as [Eq|Eq]; [discriminate|contradiction]. }
+  cbn [orb]. cbn [first_id] in E. rewrite E. eauto.
+Qed.
+
+Lemma node_insert_after_spec h l1 e ke l2 new v :
+  seg h None (l1 ++ (e, ke) :: l2) None ->
+  hget h new = Some (mkNode None None v) ->
+  NoDup (ids (l1 ++ (e, ke) :: (new, v) :: l2)) ->
+  exists h',
+    node_insert_after e new h = (Ok tt, h')
+    /\ seg h' None (l1 ++ (e, ke) :: (new, v) :: l2) None
+    /\ nxt h' = nxt h
+    /\ frame_ok h (ids (l1 ++ (e, ke) :: (new, v) :: l2)) h'.
+Proof.
+  intros Hs Hnew Hnd.
+  pose proof (seg_mid _ _ _ _ _ _ _ Hs) as He.
+  replace (l1 ++ (e, ke) :: (new, v) :: l2) with ((l1 ++ [(e, ke)]) ++ (new, v) :: l2) in *
+    by (rewrite <- app_assoc; reflexivity).
+  destruct (nodup_mid _ _ _ _ Hnd) as [Hn1 [Hn2 _]].
+  replace (l1 ++ (e, ke) :: l2) with ((l1 ++ [(e, ke)]) ++ l2) in Hs
+    by (rewrite <- app_assoc; reflexivity).
+  apply seg_app in Hs. destruct Hs as [S1 S2].
+  destruct (insert_link_spec h (l1 ++ [(e, ke)]) _ _ l2 new v S1 S2 Hnew Hnd)
+    as [h' [E [Sg [N F]]]].
+  rewrite last_id_snoc in E.
+  unfold node_insert_after. rewrite (mbind_ok _ _ _ _ _ (load_ok _ _ _ He)). cbn [n_next].
+  replace (Pos.eqb e new) with false.
+  2:{ symmetry. apply Pos.eqb_neq. intros ->. apply Hn1. rewrite in_ids_app. right. now left. }
+  rewrite oid_eqb_neq.
+  2:{ intros Eq. symmetry in Eq. apply first_id_in in Eq. contradiction. }
+  cbn [orb]. rewrite E. eauto.
+Qed.
+
+(** * LinkedList operations *)
+Lemma first_id_nonempty_some l q : l <> [] -> exists a, first_id l q = Some a.
+Proof. destruct l as [|[a ka] l]; [congruence|]. intros _. now exists a. Qed.
+
+Lemma on_heap_new_node v h ll :
+  on_heap (new_node v) (h, ll) = (Ok (nxt h), (halloc v h, ll)).
+Proof. reflexivity. Qed.
+
+Lemma ll_rep_fresh h ll L : ll_rep h ll L -> ~ In (nxt h) (ids L).
+Proof. intros R Hin. apply (lr_bound _ _ _ R) in Hin. lia. Qed.
+
+Lemma ll_rep_halloc h ll L v : ll_rep h ll L -> ll_rep (halloc v h) ll L.
+Proof.
+  intros R. pose proof (ll_rep_fresh _ _ _ R) as Hf. destruct R as [Hs Hnd Hh Ht Hz Hb].
+  constructor; auto.
+  - eapply seg_frame; [|exact Hs]. intros i Hi. apply hget_halloc_neq. intros ->. contradiction.
+  - intros i Hi. rewrite nxt_halloc. apply Hb in Hi. lia.
+Qed.
+
+Lemma ll_append_spec h ll L v :
+  ll_rep h ll L ->
+  exists h' ll',
+    ll_append v (h, ll) = (Ok (nxt h), (h', ll'))
+    /\ ll_rep h' ll' (L ++ [(nxt h, v)])
+    /\ nxt h' = Pos.succ (nxt h)
+    /\ hframe h (ids L) h'.
+Proof.
+  intros R. pose proof (ll_rep_fresh _ _ _ R) as Hfresh.
+  pose proof (ll_rep_halloc _ _ _ v R) as R1.
+  destruct R1 as [Hs Hnd Hh Ht Hz Hb]. destruct ll as [hd tl sz]; cbn in Hh, Ht, Hz; subst.
+  set (new := nxt h) in *. set (h1 := halloc v h) in *.
+  assert (Hnew : hget h1 new = Some (mkNode None None v)) by apply hget_halloc_eq.
+  assert (Hnd' : NoDup (ids (L ++ [(new, v)]))).
+  { rewrite ids_app. cbn. apply NoDup_rev in Hnd. rewrite <- (rev_involutive (ids L ++ [new])).
+    apply NoDup_rev. rewrite rev_app_distr. cbn. constructor; [|exact Hnd].
+    rewrite <- in_rev. exact Hfresh. }
+  unfold ll_append. rewrite (mbind_ok _ _ _ _ _ (on_heap_new_node _ _ _)). fold new h1.
+  rewrite (mbind_ok _ _ _ _ _ (eq_refl : get_ll _ = (Ok _, _))). cbn [snd ll_head ll_tail].
+  destruct (last_cases L) as [->|[l' [[t kt] ->]]].
+  - cbn. eexists _, _. split; [reflexivity|]. split.
+    + constructor; cbn; auto. intros i [<-|[]]. unfold h1. rewrite nxt_halloc. unfold new. lia.
+    + split; [reflexivity|apply hframe_halloc].
+  - destruct (first_id_nonempty_some (l' ++ [(t, kt)]) None) as [a Ha].
+    { destruct l'; discriminate. }
+    rewrite Ha, last_id_snoc.
+    destruct (node_insert_after_spec h1 l' t kt [] new v Hs Hnew) as [h2 [E [Sg [N F]]]].
+    { rewrite <- app_assoc in Hnd'. exact Hnd'. }
+    rewrite (mbind_ok _ _ (h1, _) tt
+               (h2, mkLL (Some a) (Some new) (length (l' ++ [(t, kt)])))).
+    2:{ rewrite (mbind_ok _ _ _ _ _ (on_heap_eq _ _ _ _ _ E)). reflexivity. }
+    cbn. eexists _, _. split; [reflexivity|]. split.
+    + rewrite <- app_assoc. cbn [app]. constructor; cbn [ll_head ll_tail ll_size].
+      * exact Sg.
+      * rewrite <- app_assoc in Hnd'. exact Hnd'.
+      * rewrite first_id_app in *. destruct l'; cbn in *; congruence.
+      * now rewrite last_id_app.
+      * rewrite !app_length. cbn. lia.
+      * intros i Hi. rewrite N. unfold h1. rewrite nxt_halloc.
+        rewrite in_ids_app in Hi. cbn in Hi.
+        assert (In i (ids (l' ++ [(t, kt)])) \/ i = new) as [Hi'| ->].
+        { rewrite in_ids_app. cbn. intuition. }
+        -- apply Hb in Hi'. unfold h1 in Hi'. rewrite nxt_halloc in Hi'. exact Hi'.
+        -- unfold new. lia.
+    + split; [rewrite N; reflexivity|].
+      eapply hframe_trans; [apply (hframe_halloc v h)| |].
+      * apply frame_ok_hframe; [exact F|exact N].
+      * intros j Hj Hin. rewrite in_ids_app in *. cbn in *.
+        destruct Hin as [Hin|[Hin|[Hin|[]]]]; auto. exfalso. unfold new in Hin. lia.
+Qed.
+
+(** the new node is allocated, unlinked, and not in the list *)
+Definition is_new (h : heap) (L : list (id * str)) (new : id) (v : str) : Prop :=
+  hget h new = Some (mkNode None None v) /\ ~ In new (ids L) /\ (new < nxt h)%positive.
+
+Lemma ll_insert_node_before_spec h ll l1 e ke l2 new v :
+  ll_rep h ll (l1 ++ (e, ke) :: l2) -> is_new h (l1 ++ (e, ke) :: l2) new v ->
+  exists h' ll',
+    ll_insert_node_before new e (h, ll) = (Ok new, (h', ll'))
+    /\ ll_rep h' ll' (l1 ++ (new, v) :: (e, ke) :: l2)
+    /\ nxt h' = nxt h
+    /\ frame_ok h (ids (l1 ++ (new, v) :: (e, ke) :: l2)) h'.
+Proof.
+  intros [Hs Hnd Hh Ht Hz Hb] [Hnew [Hfresh Hlt]].
+  destruct ll as [hd tl sz]; cbn in Hh, Ht, Hz; subst.
+  assert (Hnd' : NoDup (ids (l1 ++ (new, v) :: (e, ke) :: l2))).
+  { rewrite ids_app in *. cbn [ids map fst] in *. apply NoDup_Add with (a := new) (l := ids l1 ++ e :: map fst l2);
+      [apply Add_app|]. split; assumption. }
+  destruct (node_insert_before_spec h l1 e ke l2 new v Hs Hnew Hnd') as [h' [E [Sg [N F]]]].
+  unfold ll_insert_node_before.
+  rewrite (mbind_ok _ _ _ _ _ (eq_refl : get_ll _ = (Ok _, _))). cbn [snd ll_head].
+  destruct (first_id_nonempty_some (l1 ++ (e, ke) :: l2) None) as [a Ha].
+  { destruct l1; discriminate. }
+  rewrite Ha.
+  rewrite (mbind_ok _ _ _ _ _ (on_heap_eq _ _ _ _ _ (load_ok _ _ _ Hnew))). cbn [n_next n_prev is_some orb].
+  rewrite (mbind_ok _ _ _ _ _ (on_heap_eq _ _ _ _ _ E)).
+  rewrite (mbind_ok _ _ _ _ _ (eq_refl : get_ll _ = (Ok _, _))). cbn [snd ll_head].
+  destruct l1 as [|[i1 k1] l1'].
+  - cbn [app first_id] in *. inversion Ha; subst a. rewrite oid_eqb_refl.
+    cbn. eexists _, _. split; [reflexivity|]. split; [|split; [exact N|exact F]].
+    constructor; cbn [ll_head ll_tail ll_size first_id last_id length]; auto.
+    intros i Hi. rewrite N. cbn in Hi. destruct Hi as [<-|Hi]; [exact Hlt|]. apply Hb. exact Hi.
+  - cbn [app first_id] in *. inversion Ha; subst a. rewrite oid_eqb_neq.
+    2:{ intros Eq. inversion Eq; subst. apply (nodup_mid ((i1, k1) :: l1')) in Hnd. cbn in Hnd. tauto. }
+    cbn. eexists _, _. split; [reflexivity|]. split; [|split; [exact N|exact F]].
+    constructor; cbn [ll_head ll_tail ll_size first_id last_id length]; auto.
+    + rewrite !last_id_app. reflexivity.
+    + rewrite !app_length. cbn. lia.
+    + intros i Hi. rewrite N. change (In i (ids (((i1, k1) :: l1') ++ (new, v) :: (e, ke) :: l2))) in Hi.
+      rewrite in_ids_app in Hi. cbn [ids map fst In] in Hi.
+      destruct Hi as [Hi|[<-|Hi]]; [|exact Hlt|]; apply Hb;
+        change (In i (ids (((i1, k1) :: l1') ++ (e, ke) :: l2))); rewrite in_ids_app; cbn [ids map fst In]; tauto.
+Qed.
+
+Lemma ll_insert_node_after_spec h ll l1 e ke l2 new v :
+  ll_rep h ll (l1 ++ (e, ke) :: l2) -> is_new h (l1 ++ (e, ke) :: l2) new v ->
+  exists h' ll',
+    ll_insert_node_after new e (h, ll) = (Ok new, (h', ll'))
+    /\ ll_rep h' ll' (l1 ++ (e, ke) :: (new, v) :: l2)
+    /\ nxt h' = nxt h
+    /\ frame_ok h (ids (l1 ++ (e, ke) :: (new, v) :: l2)) h'.
+Proof.
+  intros [Hs Hnd Hh Ht Hz Hb] [Hnew [Hfresh Hlt]].
+  destruct ll as [hd tl sz]; cbn in Hh, Ht, Hz; subst.
+  assert (Hnd' : NoDup (ids (l1 ++ (e, ke) :: (new, v) :: l2))).
+  { replace (l1 ++ (e, ke) :: (new, v) :: l2) with ((l1 ++ [(e, ke)]) ++ (new, v) :: l2)
+      by (rewrite <- app_assoc; reflexivity).
+    replace (l1 ++ (e, ke) :: l2) with ((l1 ++ [(e, ke)]) ++ l2) in Hnd, Hfresh
+      by (rewrite <- app_assoc; reflexivity).
+    rewrite ids_app in *. cbn [ids map fst] in *.
+    apply NoDup_Add with (a := new) (l := ids (l1 ++ [(e, ke)]) ++ map fst l2); [apply Add_app|].
+    split; assumption. }
+  destruct (node_insert_after_spec h l1 e ke l2 new v Hs Hnew Hnd') as [h' [E [Sg [N F]]]].
+  unfold ll_insert_node_after.
+  rewrite (mbind_ok _ _ _ _ _ (eq_refl : get_ll _ = (Ok _, _))). cbn [snd ll_tail].
+  rewrite last_id_app. cbn [last_id].
+  assert (exists t, last_id l2 (Some e) = Some t) as [t Ht].
+  { destruct (last_cases l2) as [->|[l2' [[t kt] ->]]]; [now exists e|exists t; apply last_id_snoc]. }
+  rewrite Ht.
+  rewrite (mbind_ok _ _ _ _ _ (on_heap_eq _ _ _ _ _ (load_ok _ _ _ Hnew))). cbn [n_next n_prev is_some orb].
+  rewrite (mbind_ok _ _ _ _ _ (on_heap_eq _ _ _ _ _ E)).
+  rewrite (mbind_ok _ _ _ _ _ (eq_refl : get_ll _ = (Ok _, _))). cbn [snd ll_tail].
+  assert (Hbound : forall i, In i (ids (l1 ++ (e, ke) :: (new, v) :: l2)) -> (i < nxt h')%positive).
+  { intros i Hi. rewrite N. rewrite in_ids_app in Hi. cbn [ids map fst In] in Hi.
+    destruct Hi as [Hi|[<-|[<-|Hi]]]; [| |exact Hlt|]; apply Hb; rewrite in_ids_app; cbn [ids map fst In]; tauto. }
+  destruct l2 as [|[j kj] l2'].
+  - cbn [last_id] in Ht. inversion Ht; subst t. rewrite oid_eqb_refl.
+    cbn. eexists _, _. split; [reflexivity|]. split; [|split; [exact N|exact F]].
+    constructor; cbn [ll_head ll_tail ll_size]; auto.
+    + rewrite !first_id_app. reflexivity.
+    + rewrite !last_id_app. reflexivity.
+    + rewrite !app_length. cbn. lia.
+  - rewrite oid_eqb_neq.
+    2:{ intros Eq. rewrite <- Eq in Ht. cbn [last_id] in Ht. apply last_id_in in Ht.
+        apply nodup_mid in Hnd. cbn [ids map fst In] in Hnd.
+        destruct Ht as [Ht|Ht]; [inversion Ht; subst; tauto|tauto]. }
+    cbn. eexists _, _. split; [reflexivity|]. split; [|split; [exact N|exact F]].
+    constructor; cbn [ll_head ll_tail ll_size]; auto.
+    + rewrite !first_id_app. reflexivity.
+    + rewrite !last_id_app. cbn [last_id]. cbn [last_id] in Ht. symmetry. exact Ht.
+    + rewrite !app_length. cbn. lia.
+Qed.
+
+Lemma is_new_halloc h ll L v : ll_rep h ll L -> is_new (halloc v h) L (nxt h) v.
+Proof.
+  intros R. split; [apply hget_halloc_eq|]. split; [now apply (ll_rep_fresh _ _ _ R)|].
+  rewrite nxt_halloc. lia.
+Qed.
+
+Lemma hframe_alloc_then h v (L L' : list (id * str)) h' :
+  frame_ok (halloc v h) (ids L') h' -> nxt h' = nxt (halloc v h) ->
+  (forall j, In j (ids L') -> In j (ids L) \/ j = nxt h) ->
+  hframe h (ids L) h'.
+Proof.
+  intros F N Hsub.
+  eapply hframe_trans; [apply (hframe_halloc v h)|apply frame_ok_hframe; [exact F|exact N]|].
+  intros j Hj Hin. destruct (Hsub j Hin) as [H| ->]; [exact H|lia].
+Qed.
+
+Lemma ll_insert_before_spec h ll l1 e ke l2 v :
+  ll_rep h ll (l1 ++ (e, ke) :: l2) ->
+  exists h' ll',
+    ll_insert_before v e (h, ll) = (Ok (nxt h), (h', ll'))
+    /\ ll_rep h' ll' (l1 ++ (nxt h, v) :: (e, ke) :: l2)
+    /\ nxt h' = Pos.succ (nxt h)
+    /\ hframe h (ids (l1 ++ (e, ke) :: l2)) h'.
+Proof.
+  intros R.
+  destruct (ll_insert_node_before_spec (halloc v h) ll l1 e ke l2 (nxt h) v
+              (ll_rep_halloc _ _ _ v R) (is_new_halloc _ _ _ v R)) as [h' [ll' [E [R' [N F]]]]].
+  unfold ll_insert_before. rewrite (mbind_ok _ _ _ _ _ (on_heap_new_node _ _ _)). rewrite E.
+  eexists _, _. split; [reflexivity|]. split; [exact R'|]. split; [rewrite N; apply nxt_halloc|].
+  eapply hframe_alloc_then; [exact F|exact N|].
+  intros j Hj. rewrite in_ids_app in *. cbn [ids map fst In] in *. intuition.
+Qed.
+
+Lemma ll_insert_after_spec h ll l1 e ke l2 v :
+  ll_rep h ll (l1 ++ (e, ke) :: l2) ->
+  exists h' ll',
+    ll_insert_after v e (h, ll) = (Ok (nxt h), (h', ll'))
+    /\ ll_rep h' ll' (l1 ++ (e, ke) :: (nxt h, v) :: l2)
+    /\ nxt h' = Pos.succ (nxt h)
+    /\ hframe h (ids (l1 ++ (e, ke) :: l2)) h'.
+Proof.
+  intros R.
+  destruct (ll_insert_node_after_spec (halloc v h) ll l1 e ke l2 (nxt h) v
+              (ll_rep_halloc _ _ _ v R) (is_new_halloc _ _ _ v R)) as [h' [ll' [E [R' [N F]]]]].
+  unfold ll_insert_after. rewrite (mbind_ok _ _ _ _ _ (on_heap_new_node _ _ _)). rewrite E.
+  eexists _, _. split; [reflexivity|]. split; [exact R'|]. split; [rewrite N; apply nxt_halloc|].
+  eapply hframe_alloc_then; [exact F|exact N|].
+  intros j Hj. rewrite in_ids_app in *. cbn [ids map fst In] in *. intuition.
+Qed.
+
+Lemma ll_insert_at_head_spec h ll L v :
+  ll_rep h ll L ->
+  exists h' ll',
+    ll_insert_at_head v (h, ll) = (Ok (nxt h), (h', ll'))
+    /\ ll_rep h' ll' ((nxt h, v) :: L)
+    /\ nxt h' = Pos.succ (nxt h)
+    /\ hframe h (ids L) h'.
+Proof.
+  intros R. unfold ll_insert_at_head.
+  rewrite (mbind_ok _ _ _ _ _ (eq_refl : get_ll _ = (Ok _, _))). cbn [snd].
+  rewrite (lr_head _ _ _ R).
+  destruct L as [|[e ke] L'].
+  - cbn [first_id]. apply (ll_append_spec h ll [] v R).
+  - cbn [first_id]. apply (ll_insert_before_spec h ll [] e ke L' v R).
+Qed.
+
+Lemma ll_remove_node_hframe h ll l1 i k l2 :
+  ll_rep h ll (l1 ++ (i, k) :: l2) ->
+  exists h' ll',
+    ll_remove_node i (h, ll) = (Ok tt, (h', ll'))
+    /\ ll_rep h' ll' (l1 ++ l2)
+    /\ hget h' i = Some (mkNode None None k)
+    /\ nxt h' = nxt h
+    /\ hframe h (ids (l1 ++ (i, k) :: l2)) h'.
+Proof.
+  intros R. destruct (ll_remove_node_spec _ _ _ _ _ _ R) as [h' [ll' [E [R' [Hi [N F]]]]]].
+  exists h', ll'. split; [exact E|]. split; [exact R'|]. split; [exact Hi|]. split; [exact N|].
+  now apply frame_ok_hframe.
+Qed.
+
+(** * Walking the list *)
+Lemma walk_seg h p l fuel :
+  seg h p l None -> length l <= fuel -> walk h fuel (first_id l None) = Ok (map snd l).
+Proof.
+  revert p fuel. induction l as [|[i k] l IH]; intros p fuel Hs Hlen; [destruct fuel; reflexivity|].
+  cbn [first_id]. destruct fuel as [|f]; [cbn in Hlen; lia|].
+  destruct Hs as [Hi Hs]. cbn [walk]. rewrite Hi. cbn [n_next n_value].
+  rewrite (IH (Some i) f Hs); [reflexivity|cbn in Hlen; lia].
+Qed.
+
+Lemma pigeon (l : list positive) (n : positive) :
+  NoDup l -> (forall i, In i l -> (i < n)%positive) -> length l < Pos.to_nat n.
+Proof.
+  intros Hnd Hb.
+  assert (Hnd' : NoDup (map Pos.to_nat l)).
+  { clear Hb. induction Hnd as [|a l Ha Hnd IH]; cbn; constructor; [|exact IH].
+    intros Hin. apply in_map_iff in Hin. destruct Hin as [b [Eb Hb]].
+    apply Pos2Nat.inj in Eb. now subst. }
+  assert (Hincl : incl (map Pos.to_nat l) (seq 1 (Pos.to_nat n - 1))).
+  { intros x Hx. apply in_map_iff in Hx. destruct Hx as [i [<- Hi]]. apply Hb in Hi.
+    apply in_seq. lia. }
+  pose proof (NoDup_incl_length Hnd' Hincl) as Hlen. rewrite map_length, seq_length in Hlen. lia.
+Qed.
+
+Lemma ll_values_spec h ll L :
+  ll_rep h ll L -> ll_values (h, ll) = (Ok (map snd L), (h, ll)).
+Proof.
+  intros [Hs Hnd Hh Ht Hz Hb]. unfold ll_values. cbn [fst snd]. rewrite Hh.
+  rewrite (walk_seg h None L); [reflexivity|exact Hs|].
+  unfold walk_fuel. pose proof (pigeon (ids L) (nxt h) Hnd Hb) as Hp.
+  unfold ids in Hp. rewrite map_length in Hp. lia.
+Qed.
+
+(** a list representation survives changes elsewhere in the heap *)
+Lemma ll_rep_hframe h own h' ll L :
+  hframe h own h' -> (forall i, In i (ids L) -> ~ In i own) -> ll_rep h ll L -> ll_rep h' ll L.
+Proof.
+  intros Hf Hd [Hs Hnd Hh Ht Hz Hb]. constructor; auto.
+  - eapply seg_hframe; [exact Hf| |exact Hs]. intros i Hi. split; [now apply Hb|now apply Hd].
+  - intros i Hi. apply Hb in Hi. destruct Hf as [Hn _]. lia.
 Qed.
